@@ -208,15 +208,30 @@ class Interp:
             params = params[1:]
         for name, val in zip(params, pos):
             env[name] = val
+        a_sig = getattr(fn.node, 'args', None)
+        vararg = getattr(a_sig, 'vararg', None) if a_sig is not None else None
+        kwarg = getattr(a_sig, 'kwarg', None) if a_sig is not None else None
         if len(pos) > len(params):
-            self.site('X-arity', node or fn.node, 'violation',
-                      'too many positional arguments for %s' % fn.qualname)
+            if vararg is not None:
+                # def f(a, *rest): the surplus is collected
+                env[vararg.arg] = TUPLE(list(pos[len(params):]))
+            else:
+                self.site('X-arity', node or fn.node, 'violation',
+                          'too many positional arguments for %s'
+                          % fn.qualname)
+        elif vararg is not None:
+            env[vararg.arg] = TUPLE([])
+        extra_kw = {}
         for name, val in kw.items():
             if name in fn.all_params:
                 env[name] = val
+            elif kwarg is not None:
+                extra_kw[name] = val
             else:
                 self.site('X-arity', node or fn.node, 'violation',
                           'unexpected keyword %s for %s' % (name, fn.qualname))
+        if kwarg is not None:
+            env[kwarg.arg] = DICT(dict(extra_kw))
         defaults = fn.defaults()
         frame = Frame(fn, fn.module, closure=closure, self_=self_)
         self.stack.append(frame)
